@@ -69,6 +69,18 @@ def gen_cases(chk):
             data = "g:6:1:%x:%s:%s" % (n, dbits(scale), dbits(0.0))
             for mode, pwr in (((1, 0.0), (2, 0.0), (3, 0.0), (10, 1e-3), (10, 1e-7)) if ty < 2 else ((1, 0.0),)):
                 rt.append("rt %x %s %s %x %s %s %s %s %s" % (ty, tup5(t), tup5(t), mode, dbits(1.0), dbits(1e-3), dbits(pwr) if pwr else "0", rng.choice(("-", "szMode=SZ_BEST_SPEED")), data))
+    # arrays whose value range is within the bound without being constant (two adjacent values), around zero and around the point where the
+    # signed reading of an unsigned type wraps: they are constant streams too
+    for ty in range(10):
+        offs = {0: (0.0, -1.0, 1e6), 1: (0.0, -1.0, 1e12)}.get(ty)
+        if offs is None:
+            w = 8 * ES[ty]
+            offs = (float(2 ** (w - 1) - 1), 5.0) if ty in (2, 4, 6, 8) else (-1.0, 5.0, float(-2 ** (w - 1) + 3) if w < 64 else -1000.0)
+        for off in offs:
+            if ty in (8, 9) and abs(off) > 2 ** 52:
+                continue        # beyond what the harness's double-valued generator can place exactly
+            for n in (100, 100000):
+                rt.append("rt %x %s %s 0 %s %s 0 %s g:5:1:%x:%s:%s" % (ty, tup5((n,)), tup5((n,)), dbits(4.0), dbits(1e-3), rng.choice(("-", "szMode=SZ_BEST_SPEED")), n, dbits(1.0), dbits(off)))
     # the back-end hypothesis of the theorem, sampled: wrap(s) <= s + s/3277 + 40 on incompressible strings
     for be, levels in ((0, (-1, 0, 1, 9)), (1, (1, 3, 19))):
         for level in levels:
@@ -110,7 +122,7 @@ def run(chk):
         else:
             n, out = int(d["n"], 16), int(d["out"], 16)
             raw = n * ES[ty]
-            const = a[9].startswith("g:6:")
+            const = a[9].startswith("g:6:") or (a[9].startswith("g:5:1:") and a[4] == "0" and a[5] == dbits(4.0))     # exactly constant, or two adjacent values under a bound of 4
             if out > raw + 128 + raw // 1000:
                 why = "compressed size %d exceeds raw %d + 128 + 0.1%%" % (out, raw)
             elif const and out >= 64:
